@@ -98,6 +98,9 @@ pub enum Task {
     LineCol(usize),
     /// implementers map, subtype checks and meta-field lookups on the shared schema or a local one
     ImplMap(usize),
+    /// an operation executed against the shared schema (`resolvers::Execution`, sync or async
+    /// under the single-task simulator) with a seeded resolver world that includes faults
+    Exec(usize, u64),
     /// a schema derived programmatically from the shared one (same source map, one more object
     /// type implementing an interface / joining a union), validated, and an operation validated
     /// against it: what a thread did before with the shared schema must not leak into it
@@ -136,6 +139,7 @@ impl Task {
             Task::ImplMap(k) => format!("implmap:{k}"),
             Task::Path(i, p) => format!("path:{i}:{p}"),
             Task::Derive(k) => format!("derive:{k}"),
+            Task::Exec(i, w) => format!("exec:{i}:{w}"),
         }
     }
     fn from_s(s: &str) -> Option<Task> {
@@ -157,6 +161,7 @@ impl Task {
             ["implmap", k] => Task::ImplMap(k.parse().ok()?),
             ["path", i, p] => Task::Path(i.parse().ok()?, p.parse().ok()?),
             ["derive", k] => Task::Derive(k.parse().ok()?),
+            ["exec", i, w] => Task::Exec(i.parse().ok()?, w.parse().ok()?),
             _ => return None,
         })
     }
@@ -172,6 +177,7 @@ impl Task {
                 | Task::LineCol(_)
                 | Task::ImplMap(_)
                 | Task::Derive(_)
+                | Task::Exec(..)
         )
     }
 }
@@ -179,6 +185,10 @@ impl Task {
 #[derive(Clone, Debug)]
 pub struct Case {
     pub next_start: u64,
+    /// the run starts with `FileId::reset()` (the documented, serial, test-only use: nothing else is
+    /// running yet) followed by one allocation on the driver thread; ids handed out afterwards,
+    /// on whatever thread, must still be pairwise distinct
+    pub reset_first: bool,
     pub cold: bool,
     pub strategy: Strategy,
     pub sched_seed: u64,
@@ -211,6 +221,7 @@ impl Case {
     pub fn to_json(&self) -> J {
         json!({
             "next_start": self.next_start.to_string(),
+            "reset_first": self.reset_first,
             "cold": self.cold,
             "strategy": strategy_to_s(&self.strategy),
             "sched_seed": self.sched_seed.to_string(),
@@ -229,6 +240,7 @@ impl Case {
         }
         Ok(Case {
             next_start: j["next_start"].as_str().ok_or("next_start")?.parse().map_err(|_| "next_start")?,
+            reset_first: j["reset_first"].as_bool().unwrap_or(false),
             cold: j["cold"].as_bool().unwrap_or(false),
             strategy: strategy_from_s(j["strategy"].as_str().unwrap_or("replay")),
             sched_seed: j["sched_seed"].as_str().unwrap_or("0").parse().unwrap_or(0),
@@ -277,8 +289,10 @@ pub fn gen_case(run_seed: u64, tier: Tier, force_cold: Option<bool>) -> Case {
                     9 => Task::Introspect,
                     10 => Task::Multi(wl.usize(SCHEMAS.len()), wl.usize(SCHEMAS.len())),
                     _ => {
-                        let k = wl.below(10);
-                        if k == 9 {
+                        let k = wl.below(12);
+                        if k >= 10 {
+                            Task::Exec(wl.usize(4), wl.below(1 << 20))
+                        } else if k == 9 {
                             Task::Derive(wl.usize(4))
                         } else if k == 8 {
                             Task::Path(wl.usize(OPS.len().max(SCHEMAS.len())), wl.usize(PATHS.len()))
@@ -322,6 +336,7 @@ pub fn gen_case(run_seed: u64, tier: Tier, force_cold: Option<bool>) -> Case {
     };
     Case {
         next_start,
+        reset_first: next_start == 3 && sr.chance(1, 3),
         cold,
         strategy,
         sched_seed: sr.next_u64(),
@@ -401,6 +416,56 @@ fn run_task(task: &Task, shared: Option<&Arc<Valid<Schema>>>, shared_ids: &BTree
             output: pipeline::ast_bundle(OPS[*i], "ast.graphql"),
             ids: vec![],
         },
+        Task::Exec(i, w) => {
+            let schema = shared.expect("shared schema");
+            let text = OPS[*i % OPS.len()];
+            let output = match ExecutableDocument::parse_and_validate(schema, text, format!("exec{i}.graphql")) {
+                Err(_) => "EXEC: document invalid".to_string(),
+                Ok(doc) => {
+                    let ids = source_ids(&doc.sources, shared_ids);
+                    let parsed = crate::exec::Parsed {
+                        schema: Valid::<Schema>::clone(schema),
+                        doc,
+                    };
+                    let case = crate::exec::Case {
+                        schema: String::new(),
+                        document: text.to_string(),
+                        operation_name: None,
+                        variables: json!({"id": "7", "n": "x"}),
+                        introspection: w % 3 == 0,
+                        world_seed: *w,
+                        fault_permille: 80,
+                        fault_mask: u32::MAX,
+                        list_scale: 0,
+                        overrides: BTreeMap::new(),
+                        schedule: crate::exec::sim::Schedule {
+                            seed: *w,
+                            max_pending: 2,
+                            pending_permille: 500,
+                            spurious_permille: 50,
+                            strict_wakers: w % 2 == 0,
+                            ..Default::default()
+                        },
+                    };
+                    let run = if w % 2 == 0 {
+                        crate::exec::run_async(&case, &parsed, false)
+                    } else {
+                        crate::exec::run_sync(&case, &parsed, false)
+                    };
+                    let text = match run {
+                        Ok(r) => format!(
+                            "EXEC {} {:?} calls {}",
+                            r.end,
+                            r.response.map(|j| j.to_string()),
+                            r.calls.len()
+                        ),
+                        Err(v) => format!("EXEC VIOLATION {} {}", v.class, v.detail),
+                    };
+                    return TaskResult { output: text, ids };
+                }
+            };
+            TaskResult { output, ids: vec![] }
+        }
         Task::Derive(k) => {
             use apollo_compiler::name;
             use apollo_compiler::schema::ExtendedType;
@@ -645,10 +710,22 @@ fn run_task(task: &Task, shared: Option<&Arc<Valid<Schema>>>, shared_ids: &BTree
             if *raw == 0 {
                 // sweep: every power of two of the 63-bit id space, and its two neighbours
                 for b in 0..63u32 {
-                    for d in [-1i64, 0, 1] {
+                    for d in -3i64..=3 {
                         let v = (1u64 << b).wrapping_add(d as u64);
                         if v >= 1 && v < TAG {
                             pack_probe(v, &mut out);
+                        }
+                    }
+                }
+                // ids whose low 32 / 16 / 8 bits look like one of the small reserved ids (or
+                // zero) while the id as a whole is large: representations split in halves
+                for width in [8u32, 16, 32, 48] {
+                    for high in [1u64, 2, 3, 0x7f, (1 << (62 - width)) + 1, (1 << (63 - width)) - 1] {
+                        for low in 0u64..=4 {
+                            let v = (high << width) | low;
+                            if v >= 1 && v < TAG {
+                                pack_probe(v, &mut out);
+                            }
                         }
                     }
                 }
@@ -732,6 +809,8 @@ static WARM: std::sync::Once = std::sync::Once::new();
 /// Fixed warm-up: initialise every lazy static the same way in every worker process
 pub fn warm_up() {
     WARM.call_once(|| {
+        // the once-per-process statics initialised here get simulator-owned hash keys too
+        ahash::sim::set_stream(Some(0xC31_57A7));
         let (_, schema) = pipeline::schema_bundle(SHARED_SCHEMA, "warm.graphql");
         let schema = schema.expect("shared schema is valid");
         for op in OPS {
@@ -742,6 +821,7 @@ pub fn warm_up() {
         }
         let _ = pipeline::introspection_bundle(&schema);
         let _ = pipeline::standalone_bundle(OPS[4], "warm_standalone.graphql");
+        ahash::sim::set_stream(None);
     });
 }
 
@@ -793,12 +873,25 @@ impl CaseResult {
 pub fn exec_case_here(case: &Case) -> CaseResult {
     // a panic outside the simulated threads (building the shared schema, the sequential
     // reference executions) is a finding about the code under test, not a harness error
-    match std::panic::catch_unwind(|| exec_case_inner(case)) {
+    // on a thread of its own: the driver side of a case (building the shared schema, the
+    // reference executions' bookkeeping) must not inherit thread-local state from earlier cases
+    let run = std::thread::scope(|sc| {
+        std::thread::Builder::new()
+            .stack_size(32 << 20)
+            .spawn_scoped(sc, || {
+                // the panic message is kept in a thread-local of the panicking thread
+                std::panic::catch_unwind(|| exec_case_inner(case)).map_err(|_| crate::exec::take_last_panic())
+            })
+            .expect("spawn case thread")
+            .join()
+            .unwrap_or_else(|_| Err("case thread panicked outside catch_unwind".to_string()))
+    });
+    match run {
         Ok(r) => r,
-        Err(_) => CaseResult {
+        Err(panic_message) => CaseResult {
             violation: Some(Violation {
                 class: "panic".into(),
-                detail: format!("outside the simulated threads: {}", crate::exec::take_last_panic()),
+                detail: format!("outside the simulated threads: {panic_message}"),
             }),
             counters: vec![],
             interleaving: 0,
@@ -815,9 +908,15 @@ fn exec_case_inner(case: &Case) -> CaseResult {
         warm_up();
     }
     FileId::__verif_set_next(case.next_start);
+    // every RandomState the code under test creates gets keys that are a function of the case
+    ahash::sim::set_stream(Some(mix(&[case.sched_seed, 0x4A5E])));
     let shared_slot: Arc<Mutex<Option<Arc<Valid<Schema>>>>> = Arc::new(Mutex::new(None));
     let shared_ids: Arc<Mutex<BTreeSet<u64>>> = Arc::new(Mutex::new(BTreeSet::new()));
     let all_ids: Arc<Mutex<Vec<u64>>> = Arc::new(Mutex::new(vec![]));
+    if case.reset_first {
+        FileId::reset();
+        all_ids.lock().unwrap().push(FileId::new().__verif_raw());
+    }
     let make_shared = {
         let shared_slot = shared_slot.clone();
         let shared_ids = shared_ids.clone();
@@ -1186,21 +1285,27 @@ impl Property for C31 {
             // invisible to the baton scheduler. An even workload seed makes every thread's first
             // validation the conflict document. If Miri cannot be started at all, the quick tier
             // records that and goes on (the thorough tier treats it as a harness error).
-            let job = miri::Job {
-                mode: "c31-free",
-                workload_seed: (mix(&[seed, 0x4d33]) % 500_000) * 2,
-                workload_count: 1,
-                miri_seeds: 8,
-                flags: miri::FLAGS_PARSING,
-            };
-            return match miri::run_jobs(vec![job], 1) {
+            // workload seed 6y: shared schema, every thread's first validation is the conflict
+            // document; 6y + 4: cold-schema mode (the first schema validations of the process race)
+            let y = mix(&[seed, 0x4d33]) % 150_000;
+            let jobs = [6 * y, 6 * y + 4]
+                .into_iter()
+                .map(|ws| miri::Job {
+                    mode: "c31-free",
+                    workload_seed: ws,
+                    workload_count: 1,
+                    miri_seeds: 8,
+                    flags: miri::FLAGS_PARSING,
+                })
+                .collect();
+            return match miri::run_jobs(jobs, 2) {
                 Ok(r) => Ok(r),
                 Err(e) => Ok((json!({"miri": format!("not run in this quick tier: {e}")}), vec![])),
             };
         }
         let base = mix(&[seed, 0x4d32]) % 1_000_000;
         let mut jobs = vec![];
-        for k in 0..4 {
+        for k in 0..6 {
             jobs.push(miri::Job {
                 mode: "c31-free",
                 workload_seed: base + k,
